@@ -525,6 +525,49 @@ func register[C any](prop, name string, weight float64, gen func(t *rapid.T) C, 
 	registry[name] = rc
 }
 
+// ---- run-level aggregates: a replayable case made of requests collected during the run
+
+type AggCase struct {
+	Reqs []string `json:"requests"`
+}
+
+var aggMu sync.Mutex
+var aggStore = map[string][]string{}
+
+func aggCollect(name, req string, max int) {
+	aggMu.Lock()
+	if len(aggStore[name]) < max {
+		aggStore[name] = append(aggStore[name], req)
+	}
+	aggMu.Unlock()
+}
+
+func registerAggregate(prop, name string, judge func(c AggCase) *Fail) {
+	registry[name] = &regCheck{prop: prop, name: name, replay: func(raw json.RawMessage) *Fail {
+		var c AggCase
+		if err := json.Unmarshal(raw, &c); err != nil {
+			return failf("replay-decode", "%v", err)
+		}
+		return judge(c)
+	}}
+}
+
+// runAggregate judges the collected requests as one case (only when at least min were collected).
+func runAggregate(t *testing.T, prop, name string, min int, judge func(c AggCase) *Fail) {
+	aggMu.Lock()
+	c := AggCase{Reqs: append([]string{}, aggStore[name]...)}
+	aggMu.Unlock()
+	if len(c.Reqs) < min || t.Failed() || os.Getenv("VERIF_SURVEY") != "" {
+		return
+	}
+	st.inc("evaluations:" + name)
+	if f := judge(c); f != nil {
+		writeReplay(prop, name, c, f)
+		t.Fatalf("VIOLATION-CANDIDATE property=%s check=%s rule=%s: %s", prop, name, f.Rule, f.Detail)
+	}
+	st.nontrivial(name, strings.Join(c.Reqs, "|"))
+}
+
 func runRegistered(t *testing.T, name string) {
 	rc, ok := registry[name]
 	if !ok {
